@@ -108,12 +108,18 @@ def run(ctx, res):
                 res.errors.append("imprecise trace for kind %s: %r" % (kind, o.state.tags))
                 continue     # an imprecisely followed trace decides nothing
             care = Mx.AND(o.state.pc, care0)
-            if care == 0:
-                continue
             if o.kind == "panic":
+                # a panic is judged on EVERY address (the property excludes the on-chip I/O register ranges only from the cost VALUE; the guest
+                # can place an operand, its stack or code there), for the counts the instructions use
+                carep = o.state.pc if kind == "N" else Mx.AND(o.state.pc, bv.ule(state, bv.const(18, 8)))
+                if carep == 0:
+                    continue
                 res.ob(False)
-                w = isacheck.group_witness(Mx.describe_assign(Mx.sat_one(care)))
-                res.finding("%s|panic:%s" % (kind, o.info.get("kind")), "calc_state_with_addr(%s) can panic (%s) for a count within the used range" % (kind, o.info.get("kind")), w)
+                w = isacheck.group_witness(Mx.describe_assign(Mx.sat_one(carep)))
+                res.finding("%s|panic:%s" % (kind, o.info.get("kind")), "calc_state_with_addr(%s) can panic (%s) for a count within the used range%s"
+                            % (kind, o.info.get("kind"), "" if care != 0 else " at an on-chip I/O register address"), w)
+                continue
+            if care == 0:
                 continue
             if o.kind != "return" or not isinstance(o.value, Enum):
                 res.errors.append("unexpected outcome %s for kind %s" % (o.kind, kind))
